@@ -123,7 +123,7 @@ MULTI_W = {**UNARY_W, "xfer": 4, "mat": 1.2, "chain": 1, "join": 1.2, "leaf": 1}
 class C03(Profile):
     prop = "C03"
     claims = {k: "C03" for k in ("rows_mismatch", "columns_mismatch", "backtrack_column_error", "engine_mismatch",
-                                 "transfer_flag_ignored", "require_flag_violated", "tree_semantics")}
+                                 "transfer_flag_ignored", "require_flag_violated", "tree_semantics", "unexpected_exception")}
     eval_new = True
     dn_rule = ("scenario = seeded multi-engine history (SQL / iteration sources, transfers, materializations) with "
                "preferred-engine flags on every unary op and join; every result is processed and executed; distinct = "
@@ -136,6 +136,10 @@ class C03(Profile):
         self.new_entry_hooks = (oracles.tree_semantics,)
 
     def claim(self, kind, entry, run, v):
+        if kind == "unexpected_exception":
+            # a valid operation rejected because of where backtracking tried to put it
+            if entry is None or not self._flagged(entry) or self._plain_variant_raises(run, entry):
+                return None
         if kind in ("rows_mismatch", "tree_semantics", "columns_mismatch", "keys_mismatch"):
             # attributable to preferred-engine insertion only if this very call used it and
             # the same call without the options does not show the same discrepancy
@@ -151,6 +155,17 @@ class C03(Profile):
         if op.get("pe") is not None and entry.parents and op["pe"] != entry.parents[0].mv.engine:
             return True
         return op["k"] == "join" and len(entry.parents) == 2 and entry.parents[0].mv.engine != entry.parents[1].mv.engine
+
+    @staticmethod
+    def _plain_variant_raises(run, entry):
+        op = {k: v for k, v in entry.op.items() if k not in ("pe", "bt", "tr", "rq")}
+        if op["k"] == "join":
+            return False
+        try:
+            run.build_call(op, entry.parents)()
+        except Exception:
+            return True
+        return False
 
     @staticmethod
     def _plain_variant_same(run, entry):
@@ -384,7 +399,7 @@ class C10(Profile):
     eval_stats = ('evaluations', 'process_ops', 'payload_nodes_checked')
     level = "fault_enumeration"
     claims = {k: "C10" for k in ("payload_overwritten", "attach_not_rejected", "attach_wrong_exception", "attach_rejected",
-                                 "attach_lost", "reevaluated", "hook_recall", "rows_mismatch")}
+                                 "attach_lost", "reevaluated", "hook_recall", "rows_mismatch", "payload_not_cached")}
     track_payloads = True
     fault_sites = PROC_SITES
     enumerate_faults = True
@@ -456,7 +471,12 @@ class C11(Profile):
 class C14(Profile):
     prop = "C14"
     eval_stats = ('trees_walked',)
-    claims = {k: "C14" for k in ("malformed_tree", "noop_not_identity")}
+    claims = {k: "C14" for k in ("malformed_tree", "noop_not_identity", "missing_rejection")}
+
+    def claim(self, kind, entry, run, v):
+        if kind == "missing_rejection" and "engine" not in v["detail"].get("reason", ""):
+            return None
+        return self.claims.get(kind)
     dn_rule = ("histories over two or three engines with every preferred-engine option and an engine-restricted column "
                "function; every tree returned by a factory call or by process() is walked (target/lhs/rhs/skip_to) against the "
                "node-local invariants; distinct = library tree shapes spanning >= 2 engines")
@@ -467,7 +487,7 @@ class C14(Profile):
         self.new_entry_hooks = (oracles.wellformed,)
 
     def gen(self, rng, tier):
-        w = {**MULTI_W, "process": 1.5, "join": 2}
+        w = {**MULTI_W, "process": 1.5, "join": 2, "ill": 2}
         return multi_gen(rng, tier, weights=w, flags_p=0.6, udf_p=0.15, itonly_p=0.5,
                          engines=["sql", "it", "it2"] if rng.random() < 0.6 else ["sql", "it"])
 
@@ -478,7 +498,8 @@ class C14(Profile):
 class C15(Profile):
     prop = "C15"
     eval_stats = ('evaluations', 'locked_nodes_checked')
-    claims = {k: "C15" for k in ("locked_rewritten", "redundant_materialization", "rows_mismatch", "engine_mismatch")}
+    claims = {k: "C15" for k in ("locked_rewritten", "locked_dropped", "redundant_materialization", "rows_mismatch",
+                                 "engine_mismatch")}
     eval_new = True
     dn_rule = ("chains of transfers among up to three engines interleaved with operations and materializations (processed at "
                "random points so that payloads are cached on locked nodes), then factory calls with every preferred-engine "
@@ -580,7 +601,7 @@ class C18(Profile):
     eval_stats = ('iterate_ops', 'full_iterations')
     level = "fault_enumeration"
     claims = {k: "C18" for k in ("eager_leaf_iteration", "multiple_starts", "iteration_not_repeatable", "rows_mismatch",
-                                 "no_recovery")}
+                                 "no_recovery", "payload_not_cached")}
     fault_sites = ("leaf_iter",)
     enumerate_faults = True
     recover_kinds = ("iterate",)
